@@ -95,6 +95,9 @@ class Bound(V):                   # bound method / function value
     def __init__(self, fi, self_):
         self.fi, self.self = fi, self_
 
+    def __repr__(self):
+        return f'Bound({self.fi.fq}, {self.self!r})'
+
 
 class GenV(V):                    # the lexer's token generator
     def __repr__(self):
@@ -281,8 +284,22 @@ class Interp:
                     new.append((kind, val, e, t))
                 else:
                     new.extend(self.stmt(fi, s, e, t, stack))
-            results = new
+            results = self.dedupe(new) if len(new) > 1 else new
         return results
+
+    def dedupe(self, results):
+        """Paths that differ only in the outcome of conditions on unknown values and reach the same abstract
+        state are one path."""
+        seen = set()
+        out = []
+        for kind, val, e, t in results:
+            k = (kind, repr(val) if not isinstance(val, Exc) else ('exc', val.cls, repr(val.ref)),
+                 tuple(sorted((n, repr(v)) for n, v in e.items())), t.key())
+            if k in seen:
+                continue
+            seen.add(k)
+            out.append((kind, val, e, t))
+        return out
 
     def stmt(self, fi, s, env, st, stack):
         st.steps += 1
